@@ -3,11 +3,10 @@ package rules
 import (
 	"fmt"
 	"go/ast"
-	"go/constant"
 	"go/token"
 	"go/types"
-	"sort"
 	"strings"
+	"unicode"
 
 	"golang.org/x/tools/go/cfg"
 
@@ -828,59 +827,52 @@ func c15r10(rc *core.RC) {
 	}
 	rc.Touch("runtime.isValidTag")
 	info := p.Info(fd)
-	want := "!#$%&()*+-./:;<=>?@[]^_{|}~ "
-	var sets []string
-	var at token.Pos
+	// the loop over the runes of the name: its body is folded for one rune at a time. A rune is refused when the body
+	// returns false for it and allowed when the body runs to its end.
+	var loop *ast.RangeStmt
 	ast.Inspect(fd.Body, func(m ast.Node) bool {
-		c, ok := m.(*ast.CallExpr)
-		if !ok {
-			return true
-		}
-		switch core.CalleeName(info, c) {
-		case "strings.ContainsRune", "strings.IndexRune", "strings.ContainsAny", "strings.IndexByte", "strings.IndexAny":
-			if len(c.Args) >= 1 {
-				if tv, has := info.Types[c.Args[0]]; has && tv.Value != nil && tv.Value.Kind() == constant.String {
-					sets = append(sets, constant.StringVal(tv.Value))
-					at = c.Pos()
-				}
-			}
+		if rs, ok := m.(*ast.RangeStmt); ok && loop == nil && rs.Value != nil {
+			loop = rs
 		}
 		return true
 	})
-	if len(sets) != 1 {
-		rc.Unknown(key, fd.Pos(), "expected one constant punctuation set in isValidTag, found %d", len(sets))
+	if loop == nil {
+		rc.Unknown(key, fd.Pos(), "isValidTag has no loop over the runes of the name")
 		return
 	}
-	got := map[rune]bool{}
-	for _, r := range sets[0] {
-		got[r] = true
+	c := core.ObjOf(info, loop.Value)
+	const punct = "!#$%&()*+-./:;<=>?@[]^_{|}~ "
+	// all of ASCII and Latin-1, and samples of every class beyond: letters, digits, marks, symbols, separators
+	runes := []rune{}
+	for r := rune(0); r < 0x100; r++ {
+		runes = append(runes, r)
 	}
-	var missing, extra []string
-	for _, r := range want {
-		if !got[r] {
-			missing = append(missing, string(r))
+	runes = append(runes, 0x3b1, 0x416, 0x5d0, 0x4e16, 0x1f600, 0x663, 0x96c, 0xff11, 0x301, 0x20ac, 0x2028, 0x2029, 0x3000, 0xfffd, 0x2160, 0xb2)
+	var wrongAllowed, wrongRefused []string
+	for _, r := range runes {
+		bp := &core.BytePred{P: p}
+		retB, retIs, done, ok := bp.ExecList(info, loop.Body.List, core.Bind(c, int64(r)))
+		if !ok || (done && !retIs) {
+			rc.Unknown(key, loop.Pos(), "the loop body of isValidTag could not be folded for the rune %U", r)
+			return
 		}
-		delete(got, r)
-	}
-	for r := range got {
-		extra = append(extra, string(r))
-	}
-	sort.Strings(extra)
-	rc.Check(len(missing) == 0 && len(extra) == 0, key, at, "the punctuation allowed in a tag name is encoding/json's set (missing %q, extra %q)", strings.Join(missing, ""), strings.Join(extra, ""))
-	// letters and digits are the only other characters let through
-	usesLetter, usesDigit := false, false
-	ast.Inspect(fd.Body, func(m ast.Node) bool {
-		if c, ok := m.(*ast.CallExpr); ok {
-			switch core.CalleeName(info, c) {
-			case "unicode.IsLetter":
-				usesLetter = true
-			case "unicode.IsDigit":
-				usesDigit = true
-			}
+		allowed := !done || retB
+		want := strings.ContainsRune(punct, r) || unicode.IsLetter(r) || unicode.IsDigit(r)
+		switch {
+		case allowed && !want:
+			wrongAllowed = append(wrongAllowed, fmt.Sprintf("%q", r))
+		case !allowed && want:
+			wrongRefused = append(wrongRefused, fmt.Sprintf("%q", r))
 		}
-		return true
-	})
-	rc.Check(usesLetter && usesDigit, "runtime.isValidTag/letters-and-digits", fd.Pos(), "other characters are classified with unicode.IsLetter and unicode.IsDigit")
+	}
+	clip := func(xs []string) string {
+		if len(xs) > 8 {
+			return strings.Join(xs[:8], " ") + fmt.Sprintf(" … (%d)", len(xs))
+		}
+		return strings.Join(xs, " ")
+	}
+	rc.Check(len(wrongAllowed) == 0 && len(wrongRefused) == 0, key, loop.Pos(), "a tag name may consist of letters, digits and encoding/json's punctuation %q: evaluated for %d runes (all below U+0100 and samples of every class beyond); wrongly allowed: [%s], wrongly refused: [%s]. A name with a quote or backslash would be written raw into the member key by the no-escape programs", punct, len(runes), clip(wrongAllowed), clip(wrongRefused))
+	rc.OK("runtime.isValidTag/letters-and-digits", fd.Pos(), "letters and digits beyond ASCII are classified as unicode.IsLetter / unicode.IsDigit do (part of the evaluation above)")
 }
 
 // ---- C15.R11 member shadowing compares names exactly ----
@@ -1177,5 +1169,205 @@ func c15r13(rc *core.RC) {
 	}
 	if n < 1 {
 		rc.Unknown("decoder/field-map-lookups", token.NoPos, "no run-time lookup of an object key in a struct decoder's name map found (confirmed: structDecoder.lookupField)")
+	}
+}
+
+// ---- C15.R14 the first-win field counter counts distinct fields ----
+
+// Under DecodeFieldPriorityFirstWin the struct decoders stop evaluating members once every field has received its
+// value: a counter is compared with the number of distinct field names and the rest of the object is skipped. That is
+// only right when the counter counts *distinct* fields: it may be incremented only where a field is entered into the
+// set of fields seen, on the branch on which the set did not contain it.
+func c15r14(rc *core.RC) {
+	p := rc.P
+	n := 0
+	for _, fd := range p.Funcs("decoder") {
+		if fd.Body == nil {
+			continue
+		}
+		info := p.Info(fd)
+		// counters compared with fieldUniqueNameNum
+		counters := map[types.Object]bool{}
+		ast.Inspect(fd.Body, func(m ast.Node) bool {
+			be, ok := m.(*ast.BinaryExpr)
+			if !ok {
+				return true
+			}
+			for _, pair := range [][2]ast.Expr{{be.X, be.Y}, {be.Y, be.X}} {
+				if f := core.FieldOf(info, pair[0]); f != nil && f.Name() == "fieldUniqueNameNum" {
+					if o := core.ObjOf(info, pair[1]); o != nil {
+						counters[o] = true
+					}
+				}
+			}
+			return true
+		})
+		if len(counters) == 0 {
+			continue
+		}
+		fn := p.FuncName(fd)
+		rc.Touch(fn)
+		k := 0
+		var visit func(list []ast.Stmt, guard *ast.IfStmt, inElse bool)
+		visit = func(list []ast.Stmt, guard *ast.IfStmt, inElse bool) {
+			for _, st := range list {
+				switch x := st.(type) {
+				case *ast.IncDecStmt:
+					if x.Tok != token.INC || !counters[core.ObjOf(info, x.X)] {
+						continue
+					}
+					k++
+					n++
+					key := fmt.Sprintf("%s/first-win-counter#%d counts-set-insertions", fn, k)
+					// the set insertion in the same list
+					var set types.Object
+					for _, s2 := range list {
+						if as, ok := s2.(*ast.AssignStmt); ok && len(as.Lhs) == 1 {
+							if ix, isIx := core.Unparen(as.Lhs[0]).(*ast.IndexExpr); isIx {
+								if tv, has := info.Types[ix.X]; has {
+									if _, isMap := tv.Type.Underlying().(*types.Map); isMap {
+										set = core.ObjOf(info, ix.X)
+									}
+								}
+							}
+						}
+					}
+					if set == nil {
+						rc.Bad(key, x.Pos(), "the counter compared with fieldUniqueNameNum is incremented in a statement list that does not enter the field into the set of fields seen: a repeated key is counted again, the decoder believes every field has its value and skips the rest of the object ({\"A\":1,\"A\":2,\"B\":3,\"C\":4} into struct{A,B,C int} under DecodeFieldPriorityFirstWin leaves C at 0)")
+						continue
+					}
+					// and the list is the branch of a membership test of that set on which the field is new
+					okGuard := false
+					if guard != nil {
+						testsSet := false
+						var existsVar types.Object
+						if as, ok := guard.Init.(*ast.AssignStmt); ok && len(as.Lhs) == 2 && len(as.Rhs) == 1 {
+							if ix, isIx := core.Unparen(as.Rhs[0]).(*ast.IndexExpr); isIx && core.ObjOf(info, ix.X) == set {
+								testsSet = true
+								existsVar = core.ObjOf(info, as.Lhs[1])
+							}
+						}
+						if testsSet {
+							cond := core.Unparen(guard.Cond)
+							if u, isNot := cond.(*ast.UnaryExpr); isNot && u.Op == token.NOT && core.ObjOf(info, u.X) == existsVar {
+								okGuard = !inElse
+							} else if core.ObjOf(info, cond) == existsVar {
+								okGuard = inElse
+							}
+						}
+					}
+					rc.Check(okGuard, key, x.Pos(), "the counter is incremented where the field is entered into the set of fields seen, on the branch of the membership test on which the field is new")
+				case *ast.IfStmt:
+					visit(x.Body.List, x, false)
+					switch e := x.Else.(type) {
+					case *ast.BlockStmt:
+						visit(e.List, x, true)
+					case *ast.IfStmt:
+						visit([]ast.Stmt{e}, guard, inElse)
+					}
+				case *ast.ForStmt:
+					visit(x.Body.List, nil, false)
+				case *ast.RangeStmt:
+					visit(x.Body.List, nil, false)
+				case *ast.BlockStmt:
+					visit(x.List, guard, inElse)
+				case *ast.SwitchStmt:
+					for _, c := range x.Body.List {
+						visit(c.(*ast.CaseClause).Body, nil, false)
+					}
+				case *ast.LabeledStmt:
+					visit([]ast.Stmt{x.Stmt}, guard, inElse)
+				}
+			}
+		}
+		visit(fd.Body.List, nil, false)
+	}
+	if n < 2 {
+		rc.Unknown("decoder/first-win-counters", token.NoPos, "found %d increments of a counter compared with fieldUniqueNameNum (confirmed: structDecoder.Decode and DecodeStream)", n)
+	}
+}
+
+// ---- C15.R15 a field is always registered under its exact name ----
+
+// The name map of a struct decoder holds every field under its exact JSON name and, first come first served, under the
+// lower-cased name. "Exact match first" needs the exact entry to be unconditional: when it is subject to the same
+// first-win test as the alias, the alias an earlier field left under a later field's exact name wins, and the key
+// `name` selects the field Name.
+func c15r15(rc *core.RC) {
+	p := rc.P
+	fd := p.Func("decoder", "compileStruct")
+	key := "decoder.compileStruct/exact-name-always-registered"
+	if fd == nil || fd.Body == nil {
+		rc.Unknown(key, token.NoPos, "compileStruct not found")
+		return
+	}
+	rc.Touch("decoder.compileStruct")
+	info := p.Info(fd)
+	// the name map: the map[string]*structFieldSet handed to newStructDecoder
+	isNameMap := func(e ast.Expr) bool {
+		tv, has := info.Types[e]
+		if !has {
+			return false
+		}
+		m, ok := tv.Type.Underlying().(*types.Map)
+		return ok && strings.HasSuffix(m.Elem().String(), "structFieldSet") && m.Key().String() == "string"
+	}
+	// assignments M[K] = set where K is exactly <set>.key
+	type store struct {
+		as      *ast.AssignStmt
+		guarded bool
+	}
+	var exact []store
+	var walk func(list []ast.Stmt, guarded bool, loopVars map[types.Object]bool)
+	walk = func(list []ast.Stmt, guarded bool, loopVars map[types.Object]bool) {
+		for _, st := range list {
+			switch x := st.(type) {
+			case *ast.AssignStmt:
+				if len(x.Lhs) != 1 || len(x.Rhs) != 1 {
+					continue
+				}
+				ix, ok := core.Unparen(x.Lhs[0]).(*ast.IndexExpr)
+				if !ok || !isNameMap(ix.X) {
+					continue
+				}
+				if sel, isSel := core.Unparen(ix.Index).(*ast.SelectorExpr); isSel && sel.Sel.Name == "key" && core.ObjOf(info, sel.X) == core.ObjOf(info, x.Rhs[0]) {
+					exact = append(exact, store{x, guarded})
+				}
+			case *ast.IfStmt:
+				// a test of the map's own contents guards what is below it
+				g := guarded
+				ast.Inspect(x, func(m ast.Node) bool {
+					if ix, ok := m.(*ast.IndexExpr); ok && isNameMap(ix.X) && m.Pos() < x.Body.Pos() {
+						g = true
+					}
+					return true
+				})
+				walk(x.Body.List, g, loopVars)
+				if e, ok := x.Else.(*ast.BlockStmt); ok {
+					walk(e.List, g, loopVars)
+				}
+			case *ast.RangeStmt:
+				walk(x.Body.List, guarded, loopVars)
+			case *ast.ForStmt:
+				walk(x.Body.List, guarded, loopVars)
+			case *ast.BlockStmt:
+				walk(x.List, guarded, loopVars)
+			}
+		}
+	}
+	walk(fd.Body.List, false, nil)
+	unguarded := 0
+	for _, s := range exact {
+		if !s.guarded {
+			unguarded++
+		}
+	}
+	switch {
+	case unguarded > 0:
+		rc.OK(key, exact[0].as.Pos(), "every field is entered into the name map under its exact key without a test of what the map already holds (%d store(s))", unguarded)
+	case len(exact) > 0:
+		rc.Bad(key, exact[0].as.Pos(), "the entry under a field's exact key is only made when the map does not hold that key yet: the lower-cased alias of an earlier field (Name -> name) keeps the slot of a later field whose exact key is name, so {\"Name\":1,\"name\":2} puts 2 into the field Name and nothing into name")
+	default:
+		rc.Bad(key, fd.Pos(), "no store `nameMap[set.key] = set` found in compileStruct: fields are not registered under their exact key (exact match first cannot hold when keys differ only in case)")
 	}
 }
